@@ -808,17 +808,17 @@ def Array(
         @classmethod
         def encode(cls, values: List[Any], length: Optional[int] = None) -> bytes:
             _length = length or cls.length
-            if isinstance(_length, int):
-                if len(values) < _length:
-                    raise DataError(
-                        f"Not enough values to encode array of {cls.element_type}[{_length}]"
-                    )
-
-                _len = _length
-            else:
-                _len = len(values)
-
             try:
+                if isinstance(_length, int):
+                    if len(values) < _length:
+                        raise DataError(
+                            f"Not enough values to encode array of {cls.element_type}[{_length}]"
+                        )
+
+                    _len = _length
+                else:
+                    _len = len(values)
+
                 if issubclass(cls.element_type, BitArrayType):
                     chunk_size = cls.element_type.size * 8
                     _len = len(values) // chunk_size
@@ -841,9 +841,14 @@ def Array(
             _array = []
             while True:
                 try:
+                    _pos = stream.tell()
                     _array.append(cls.element_type.decode(stream))
                 except BufferEmptyError:
                     break
+                if stream.tell() == _pos:
+                    raise DataError(
+                        f"Cannot decode an unbound array of {cls.element_type}, elements consume no data"
+                    )
             return _array
 
         @classmethod
@@ -851,6 +856,7 @@ def Array(
             _length = length or cls.length
             try:
                 stream = _as_stream(buffer)
+                start = stream.tell()
                 if _length is None:
                     return cls._decode_all(stream)
 
@@ -866,7 +872,7 @@ def Array(
 
                 return _val
             except Exception as err:
-                if isinstance(err, BufferEmptyError):
+                if isinstance(err, BufferEmptyError) and stream.tell() == start:
                     raise
                 else:
                     raise DataError(
